@@ -4,7 +4,7 @@
    levelfilter.h, duplicatefilter.{h,cpp}, regexpfilter.cpp and seqnumberattr.{h,cpp} on every run.
    [all_calls src_cfg sc] is the list of handler calls, in the order they happen, when the messages
    of scenario [sc] go through its pipelines (objects may sit in several pipelines and several times
-   in one); [calls_of o] selects the calls of handler object number [o]. *)
+   in one) and other users call attributes()/filter() of the same objects directly in between; [calls_of o] selects the calls of handler object number [o]. *)
 From Coq Require Import List NArith ZArith Bool Arith.
 Import ListNotations.
 Require Import QtlVerif.RegexDefs QtlVerif.RegexProofs QtlVerif.FiltersDefs QtlVerif.FiltersProofs QtlVerif.SrcFilters.
@@ -149,8 +149,9 @@ Definition A_ : list N := [65%N].
 Definition sc_ex : scenario :=
   {| objs := [HSeq; HDup; HDrop 0; HLevel Warning; HFmtTag];
      pipes := [[0; 2; 4; 1]; [1; 0; 3]];
-     feed := [(0, m_ Info a_ 0%N); (1, m_ Info a_ 0%N); (0, m_ Debug a_ 1%N); (1, m_ Fatal [] 0%N);
-              (1, m_ Debug [] 0%N); (0, m_ Warning A_ 2%N); (1, m_ Critical a_ 0%N)] |}.
+     feed := [Send 0 (m_ Info a_ 0%N); Send 1 (m_ Info a_ 0%N); Send 0 (m_ Debug a_ 1%N); Send 1 (m_ Fatal [] 0%N);
+              Send 1 (m_ Debug [] 0%N); Send 0 (m_ Warning A_ 2%N); Direct 0 (m_ Debug a_ 0%N);
+              Send 1 (m_ Critical a_ 0%N)] |}.
 Example C16_nonvacuous_shared :
   observe src_cfg sc_ex
   = [[(true, Some 0); (true, None); (true, None); (true, None)];   (* "a": number 0, passes *)
@@ -159,7 +160,8 @@ Example C16_nonvacuous_shared :
      [(true, None); (true, Some 2); (true, None)];                 (* "" differs from "a": passes, fatal >= warning *)
      [(false, None)];                                              (* "" again: dropped *)
      [(true, Some 3); (true, None); (true, None); (true, None)];   (* "A" is not "" *)
-     [(true, None); (true, Some 4); (true, None)]]%Z.              (* "a" is not "A" (case matters) *)
+     [(true, Some 4)];                                             (* attributes() called directly on the counter *)
+     [(true, None); (true, Some 5); (true, None)]]%Z.              (* "a" is not "A" (case matters) *)
 Proof. vm_compute. reflexivity. Qed.
 Example C16_nonvacuous_initially_empty :
   dup_run src_cfg (dup_init src_cfg) [m_ Debug [] 0%N; m_ Debug a_ 0%N; m_ Debug a_ 0%N; m_ Debug [] 0%N]
